@@ -1,7 +1,7 @@
 SPECIFICATION Spec
 CONSTANTS
   Pair = "MLTEM"
-  MaxDepth = 4
+  MaxDepth = 3
   MaxCopies = 2
   MaxEdits = 1
   MaxReopens = 1
